@@ -27,6 +27,7 @@ class Events:
         self.impure = []       # names of impure APIs called
         self.stmts = set()
         self.dirlist = 0
+        self.linelens = {}     # emitter class -> set of line lengths it wrote with
         self.active = True
 
     def to_json(self):
@@ -44,6 +45,7 @@ class Events:
             "impure": sorted(set(self.impure)),
             "stmts": sorted(self.stmts),
             "dirlist": self.dirlist,
+            "linelens": {k: sorted(v) for k, v in self.linelens.items()},
         }
 
 
@@ -116,6 +118,7 @@ def install(names, ev=None):
             orig_continue(self, tee, line, spaces)
             produced = "".join(tee.log)
             ev.continue_calls += 1
+            ev.linelens.setdefault(type(self).__name__, set()).add(self.linelen)
             if produced.count("\n") > 1:
                 ev.continue_split += 1
                 if len(ev.line_samples) < 3:
